@@ -127,6 +127,7 @@ Reach_LoanRepaid    == ~(\E j \in 1..Len(S.loans) : S.loans[j].cause = "repay")
 Reach_AutoRepaid    == ~(\E j \in 1..Len(S.loans) : S.loans[j].cause = "autorepay")
 Reach_Rollback      == ~(\E j \in 1..Len(S.loans) : S.loans[j].cause = "rollback")
 Reach_FeeCharged    == ~(\E i \in 1..Len(S.orders) : S.orders[i].fee > 0)
+Reach_BaseFeeCharged == ~(\E i \in 1..Len(S.orders) : S.orders[i].feeB > 0 /\ S.orders[i].filled < S.orders[i].amount)
 Reach_StopHit       == ~(\E i \in 1..Len(S.orders) : S.orders[i].stopHit /\ S.orders[i].filled = 0)
 Reach_CondChanged   == ~(S.cond # C.cond /\ \E j \in 1..Len(S.loans) : S.loans[j].open /\ S.loans[j].c # S.cond[S.loans[j].sym])
 Reach_MarginRefused == ~(call.kind = "create_loan" /\ ~call.ok /\ call.err = "nebal")
